@@ -1,7 +1,72 @@
 (* C04 — if / elseif / else / while / for-in are properly nested structured blocks.
-   Property theorems only; every proof is [exact <lemma>]. *)
-Require Import DS.Base DS.FlowTables DS.FlowTablesWf.
+   Property theorems only; every proof is [exact <lemma>].
 
-(* the keyword tables regenerated from the Rust sources are well-formed *)
+   Model: DS.Flow (flat machine = the Rust flow-control commands driven by the runner's line
+   counter), DS.FlowScan (instruction_query::find_commands), tables DSG.GenFlowNames regenerated
+   from the Rust sources.  Spec: DS.FlowTree (structured programs, [compile], [tree_run]). *)
+Require Import DS.Base DS.FlowTables DS.FlowTablesWf DS.FlowScan DS.Flow DS.FlowTree DS.FlowScanProof
+  DS.FlowLemmas DS.FlowFrame DS.FlowSim DS.FlowThms.
+Open Scope nat_scope.
+
+(* the keyword tables regenerated from the Rust sources are well-formed: every spelling of a
+   keyword is in the list the scanners expect it in, the lists are disjoint where the scanner needs
+   it, every spelling runs the command it is a spelling of.  (False with defect F5.) *)
 Theorem C04_tables : tables_wf = true.
 Proof. exact gen_tables_wf. Qed.
+
+(* scanner lemma: from the line after an opener of kind k, over any well-nested body and else
+   chain in any spelling, find_commands returns exactly the positions of the construct's own
+   elseif/else lines and of its own end line *)
+Theorem C04_find_own_end : tables_wf = true ->
+  forall k pre b els c rest, wfb b -> wfe els -> In c (closers k) ->
+  find_commands (table_of k) (pre ++ cmds (cb b) ++ cmds (ce els) ++ Some c :: rest) (length pre)
+  = SOk (mids k els (length pre + length (cb b))) (length pre + length (cb b) + length (ce els)).
+Proof. exact find_own_end_gen. Qed.
+
+(* the flat machine is a function of its configuration *)
+Theorem C04_steps_det : forall P n c c1 c2,
+  steps n P c = Some c1 -> steps n P c = Some c2 -> c1 = c2.
+Proof. exact steps_det. Qed.
+
+(* simulation (full statement of DESIGN §7 C04): whatever the tree-walking interpreter computes for
+   a well-formed block, the flat machine computes on the compiled code, wherever that code is
+   placed in a program and whatever flow state it starts from (provided its caches are right and
+   no for-in entry of the stack lies inside the code), ending on the line after the block in the
+   same world (variables, emit trace, arrays) with caches that equal recomputation, the if/while
+   stacks extended only by junk entries of the block's own lines, the for-in stack as found *)
+Theorem C04_sim : tables_wf = true ->
+  forall b w w' n pre post, wfb b -> tree_run n b w = TOk w' ->
+  let P := pre ++ compile b ++ post in
+  let p := length pre in let q := length pre + length (compile b) in
+  forall f, Inv P f -> for_out p q f ->
+  exists m f', steps m P (p, (w, f)) = Some (q, (w', f')) /\ Inv P f' /\ frame p q f f'.
+Proof. exact flow_sim. Qed.
+
+(* whole programs: the compiled program, run by the fuelled runner from the empty flow state,
+   runs past its last line (never stuck, no Error / Crash / Panic outcome) in the world of the
+   tree interpreter; the cached block tables equal recomputation; no for-in entry is left *)
+Theorem C04_program : tables_wf = true ->
+  forall b w w' n, wfb b -> tree_run n b w = TOk w' ->
+  exists fuel f', (forall k, fuel <= k -> run_program k (compile b) w = Done (w', f')) /\
+                  Inv (compile b) f' /\ f_forstk f' = [].
+Proof. exact flow_program. Qed.
+
+Theorem C04_program_unique : tables_wf = true ->
+  forall b w w' n, wfb b -> tree_run n b w = TOk w' ->
+  forall k s, run_program k (compile b) w = Done s -> fst s = w'.
+Proof. exact flow_program_unique. Qed.
+
+(* the specification's for-in is "once per element, in order, loop variable bound to the element"
+   whenever the body leaves the array and its handle variable alone *)
+Theorem C04_for_elements : forall x hv b l,
+  (forall k v w1 w2, arr_is hv l w1 -> tb k b (vset x v w1) = TOk w2 -> arr_is hv l w2) ->
+  forall n w w', arr_is hv l w -> tfor n x hv b 0 w = TOk w' -> iterates x b l w w'.
+Proof. exact tfor_elements0. Qed.
+
+(* non-vacuity: a program using every construct with full names and aliases is in the domain,
+   the interpreter finishes with four emits and the flat machine ends in the same world *)
+Theorem C04_nonvacuous :
+  wfb_b ex_block = true /\
+  exists w', tree_run 50 ex_block ex_world = TOk w' /\ length (w_trace w') = 4 /\
+             exists f', run_program 100 (compile ex_block) ex_world = Done (w', f').
+Proof. exact ex_nonvacuous. Qed.
